@@ -72,18 +72,30 @@ void STP::port_id(uint16_t new_port_id) {
 }
 
 void STP::msg_age(uint16_t new_msg_age) {
+    if (new_msg_age > 0xff) {
+        throw value_too_large();
+    }
     header_.msg_age = Endian::host_to_be<uint16_t>(new_msg_age * 256);
 }
 
 void STP::max_age(uint16_t new_max_age) {
+    if (new_max_age > 0xff) {
+        throw value_too_large();
+    }
     header_.max_age = Endian::host_to_be<uint16_t>(new_max_age * 256);
 }
 
 void STP::hello_time(uint16_t new_hello_time) {
+    if (new_hello_time > 0xff) {
+        throw value_too_large();
+    }
     header_.hello_time = Endian::host_to_be<uint16_t>(new_hello_time * 256);
 }
 
 void STP::fwd_delay(uint16_t new_fwd_delay) {
+    if (new_fwd_delay > 0xff) {
+        throw value_too_large();
+    }
     header_.fwd_delay = Endian::host_to_be<uint16_t>(new_fwd_delay * 256);
 }
 
